@@ -15,7 +15,12 @@ BASELINE_MISSED = {"C02-2": "C02 now sets stream trailers that share keys with t
  "C13-2": "sequential over-limit compressed prologue + concurrent 60 KB compressed burst (race detector fires)",
  "C15-1": "new sub-check partial-frame: context ends after 1..4 bytes of the next prefix arrived",
  "C15-2": "new sub-check server-side-expiry: handler deadline passes before user code runs; raw response decoded",
- "C16-2": "the same option values are applied to 1–2 other clients/handlers first"}
+ "C16-2": "the same option values are applied to 1–2 other clients/handlers first",
+ "C01r2-2": "enumerated recycle-cap sweep: consecutive >8 MiB messages, the later with zero fields (was reachable only in the thorough tier)",
+ "C07r2-2": "zero-length envelopes under undefined flag bits",
+ "C09r2-1": "handler-side requests announce Content-Length as fixed-size clients do",
+ "C15r2-2": "instant class between-burst: context ends after part of an already-delivered burst was taken",
+ "C17r2-2": "a second file with same-named services in another package in the same plugin invocation"}
 rows = []
 for d in sorted(glob.glob(os.path.join(ROOT, "seeded", "C*-*"))):
     name = os.path.basename(d)
@@ -26,6 +31,8 @@ for d in sorted(glob.glob(os.path.join(ROOT, "seeded", "C*-*"))):
     summ = re.sub(r"\s+", " ", str(m.get("summary", "")))[:170].replace("|", "/")
     needs = re.sub(r"\s+", " ", str(m.get("needs", "")))[:150].replace("|", "/")
     note = "missed at first; " + BASELINE_MISSED[name] if name in BASELINE_MISSED else "detected as first evaluated"
+    if "r2-" in name:
+        note = "round 2: " + note
     rows.append("| %s | %s | %s | %s | %s | %s |" % (name, summ, needs, "yes" if valid else "NO", ", ".join(det) or "**not detected**", note))
 table = "| seeded | change | needs | confirmed (applies, suite passes, demo fails/passes) | detected by `./verif check <prop>` | history |\n|---|---|---|---|---|---|\n" + "\n".join(rows)
 p = os.path.join(ROOT, "DESIGN.md")
